@@ -262,18 +262,30 @@ def main(chk, replay=None):
     else:
         # 1. design model, request space: exhaustive
         cfg = CFG % dict(spec="ReqSpec", props=REQ_PROPS)
-        res = tlc.check_model("MC_C03", "MC_C03_run.cfg", dump=True, coverage=True, timeout=1500,
+        # (no -coverage: TLC's coverage instrumentation of the recursive string operators exhausts the heap;
+        #  action coverage is measured from the dump instead: states per control location / per site)
+        res = tlc.check_model("MC_C03", "MC_C03_run.cfg", dump=True, timeout=1500, continue_=True,
                               extra_files=dict(extra(t["hls"], 0, False), **{"MC_C03_run.cfg": cfg}))
         try:
             if res["inv_violations"]:
-                chk.model_violation("MC_C03", res["inv_violations"], res["out"][-3000:])
+                chk.model_violation("MC_C03", sorted(set(res["inv_violations"])), res["out"][-3000:])
             cases = {}
+            pcs, sites = {}, {}
             for st in iter_dump_states(res["dump"], wanted={"pc", "rq", "site", "proto", "kind"}):
+                pcs[st["pc"]] = pcs.get(st["pc"], 0) + 1
+                if st["pc"] == "closed":
+                    sites[st["site"]] = sites.get(st["site"], 0) + 1
                 if st["pc"] == "closed":
                     cases[st["rq"]["id"]] = (_rq(st["rq"]), st["site"], st["proto"], st["kind"])
         finally:
             tlc.cleanup(res)
         n_req = len(cases)
+        evidence["model_states_per_pc"] = pcs
+        evidence["model_closed_states_per_site"] = sites
+        missing = [x for x in ("select", "parse", "lookup", "entry", "write", "catchP", "catchS", "escape", "finish", "closed")
+                   if not pcs.get(x)]
+        if missing and defects:
+            raise core.MachineryError("C03: control locations never reached in MC_C03: %s" % missing)
         by_hl = {}
         for rid in sorted(cases):
             by_hl.setdefault(cases[rid][0]["hl"], []).append(rid)
@@ -291,11 +303,11 @@ def main(chk, replay=None):
         for hl in t["hist_hls"]:
             bytecode = hl == "full"
             cfgh = CFG % dict(spec="HistSpec", props="INVARIANT HistoryFree")
-            resh = tlc.check_model("MC_C03_hist", "MC_C03_hist_run.cfg", dump=True, timeout=2400,
+            resh = tlc.check_model("MC_C03_hist", "MC_C03_hist_run.cfg", dump=True, timeout=2400, continue_=True,
                                    extra_files=dict(extra([hl], t["maxhist"], bytecode), **{"MC_C03_hist_run.cfg": cfgh}))
             try:
                 if resh["inv_violations"]:
-                    chk.model_violation("MC_C03_hist", resh["inv_violations"], resh["out"][-3000:])
+                    chk.model_violation("MC_C03_hist", sorted(set(resh["inv_violations"])), resh["out"][-3000:])
                 hcases = {}
                 for st in iter_dump_states(resh["dump"], wanted={"pc", "phase", "r0", "hdone", "site"}):
                     if st["pc"] == "closed" and st["phase"] == "final":
@@ -337,7 +349,11 @@ def main(chk, replay=None):
             chk.violation(key, rj["clause"], tr["case"],
                           {"rejected_at_event": rj["at"], "event": tr["events"][at], "extra": tr["extras"][at],
                            "events": tr["events"] if tr["case"]["mode"] == "hist" else None})
-        chk.note_drift([dict(d, id=traces[idxs[d["index"]]]["id"]) for d in tv["drift"]])
+        dr = [dict(d, id=traces[idxs[d["index"]]]["id"]) for d in tv["drift"]]
+        chk.note_drift(dr)
+        for d in dr:
+            k = "%s @ %s" % (d["what"], d["id"].split(" :: ")[0] if d["id"].startswith("req:") else "hist")
+            evidence.setdefault("drift_summary", {}).setdefault(k, []).append(d["id"])
 
     # 4. vacuity guards and measured coverage
     conns = [(tr, e, x) for tr in traces for e, x in zip(tr["events"], tr["extras"]) if e["ev"] == "conn"]
@@ -371,7 +387,9 @@ def main(chk, replay=None):
         "samples": sample, "checker_cmd": res.get("cmd", "") + " ; " + tcmd,
         "trace_states": tstates, "protocol_classes_observed": protos, "defects_in_model": sorted(defects),
         "history_models": evidence.get("history_models", []),
-        "model_coverage_zero": sorted(k for k, v in res.get("coverage", {}).items() if v[0] == 0)[:20],
+        "drift_summary": {k: {"n": len(v), "e.g.": v[:3]} for k, v in sorted(evidence.get("drift_summary", {}).items())},
+        "model_states_per_pc": evidence.get("model_states_per_pc"),
+        "model_closed_states_per_site": evidence.get("model_closed_states_per_site"),
         "bindings": ["B1 protocol order / handler lists / tree as TLC constants", "B2 TLC closed states replayed",
                      "B3 TraceC03"],
     }
